@@ -153,3 +153,35 @@ def data_key(row) -> tuple[int, int] | None:
         if m:
             return int(m.group(1)), int(m.group(2))
     return None
+
+
+# ------------------------------------------------------------------ data rows
+
+def expected_rows(dfspec: dict, body: dict) -> list[list[str]]:
+    cols = displayed_columns(dfspec, body)
+    n = len(dfspec["cols"][0]["values"]) if dfspec["cols"] else 0
+    return [[display(dfspec["cols"][j]["values"][r]) for j in cols] for r in range(n)]
+
+
+def observed_data_rows(doc):
+    """-> (rows [(page, texts)], unclassifiable [(page, texts)])"""
+    rows, unk = [], []
+    for pi, page in enumerate(doc.pages):
+        for role, b in page_roles(page):
+            if b.kind != "row":
+                continue
+            if role == "data":
+                rows.append((pi, b.texts))
+            elif role is None:
+                unk.append((pi, b.texts))
+    return rows, unk
+
+
+def first_diff(exp, got):
+    for i, (a, b) in enumerate(zip(exp, got)):
+        if a != b:
+            return i, a, b
+    if len(exp) != len(got):
+        i = min(len(exp), len(got))
+        return i, exp[i] if i < len(exp) else None, got[i] if i < len(got) else None
+    return None
